@@ -9,25 +9,25 @@ try:
 except Exception: pass
 TECH={
  'C01':'static analysis: value identity of the endpoint key along the routing chain, table agreement of URL paths/headers, who-may-construct, transport configuration',
- 'C02':'static analysis: call-graph reachability (local writers vs network handlers), guard dominance on every state write, version-store forms, delta construction/sort',
- 'C03':'static analysis: must-pass-through of the exchange skeleton (apply digest, delta, send), digest completeness, peer selection',
- 'C04':'static analysis: guard dominance on lookup returns, table agreement of the key schema, path classes of watcher methods, promotion guards',
+ 'C02':'static analysis: call-graph reachability (local writers vs network handlers), guard dominance on every state write, version-store forms, delta construction/sort, loop completeness, observer-compaction provenance followed through helper call sites',
+ 'C03':'static analysis: must-pass-through of the exchange skeleton (apply digest, delta, send), digest completeness, peer selection, reply coverage of Delta, scheduler wiring (call-graph + ticker-loop shape)',
+ 'C04':'static analysis: guard dominance on lookup returns, table agreement of the key schema, path classes of watcher methods, promotion guards, success-means-written effect summaries of the routing-table mutators, pending-node path classes',
  'C05':'static analysis: effect summaries (path classes) + guard dominance + locksets + call-graph ownership over SSA',
  'C06':'static analysis: argument shape at Select call sites, marker dominance before the hop, guard dominance on raw dials, local-first selection',
- 'C07':'static analysis: sibling agreement of the copy-pair idiom, reader-retention typestate in the websocket adapter, forbidden configuration calls',
+ 'C07':'static analysis: sibling agreement of the copy-pair idiom, reader-retention typestate and per-path return discipline in the websocket adapter, who-may-call for the WebSocket library (single writer/reader), release of the dialled leg on all paths, forbidden configuration calls/values',
  'C08':'static analysis: who-may-store in Director, live-header write set over handler chains, status table by guard dominance, timeout phi provenance',
  'C09':'static analysis: must-precede of auth middleware over route registration, abort discipline path classes, verifier option/data-dependence checks, algorithm/key table agreement',
  'C10':'static analysis: checked-equals-routed value identity with helper summaries, exact-membership return discipline, tenant selection guards',
- 'C11':'static analysis: guard dominance on membership field stores, flag/expiry pairing, notification pairing, routing status mapping',
- 'C12':'static analysis: heartbeat must-pass-through, window bookkeeping typestate (eviction/sum/index), data-dependence shape of phi',
- 'C13':'static analysis: size-bound dataflow on emitted buffers, encode-loop typestate, reachable-panic and bounds-guard scan from network entry points',
+ 'C11':'static analysis: guard dominance on membership field stores, flag/expiry pairing, transition guards, notification pairing, routing status mapping, facade/driver wiring of the periodic sweeps',
+ 'C12':'static analysis: heartbeat must-pass-through, window lifecycle (create-on-miss, store, prime, drop), window bookkeeping typestate (eviction/sum/index), data-dependence shape of phi',
+ 'C13':'static analysis: size-bound dataflow on emitted buffers (through sender helpers), encode-loop typestate, reachable-panic and bounds-guard scan from network entry points, checked-lookup dereference, error-arm contradiction rule, header validation, taint-style rule for panicking metrics label APIs',
  'C14':'static analysis: mutation/notification pairing by bounded path enumeration over SSA, synchronous-call check',
  'C15':'static analysis: cursor invariant (who-may-store + renormalisation typestate), effect summaries for empty balancers, selection provenance',
  'C16':'static analysis: acquire/release pairing with defer, accept-loop exit guards, context provenance (phi operands), expiry propagation',
  'C17':'static analysis: clean/bumped version automaton over the CFG, no-op guard facts, compaction retention edges, stored-entry shape',
- 'C18':'static analysis: shutdown order must-precede, single grace context, leave marker ordering, reconnect classification by local state',
+ 'C18':'static analysis: shutdown order must-precede, single grace context, leave marker ordering, reconnect classification by local state, retryable classification of transport-level dial failures',
  'C19':'static analysis: guard dominance before shedding, data dependence of the shed count, ticker gating, average over active nodes',
- 'C20':'static analysis: lock-order graph over VTA call graph, guarded-by locksets, escape of guarded pointers, blocking calls under locks',
+ 'C20':'static analysis: lock-order graph over VTA call graph, guarded-by locksets, escape of guarded pointers, blocking calls under locks, lock/unlock pairing on all paths, library concurrency contract (who-may-call), loop-refilled buffer escaping to a goroutine, nil dereference of failed checked lookups',
 }
 m={
  "version":1,
@@ -35,7 +35,7 @@ m={
  "hooks":{"guard":"verif","enable":"none: static analysis needs no instrumentation; no hook commits exist","baseline_off_cmd":"cd /repo && go test -vet=off -count=1 ./...","source_commits":[],"add_only":True},
  "engines":[{"name":"pikocheck","path":"checker/","serves_properties":sorted(built),"kind_free_text":"repository-specific static analyser over go/packages + go/ssa + VTA call graph (x/tools v0.50.0, go1.26.8): guard-dominance facts, value identity/access paths, bounded path enumeration, effect summaries, locksets, call-graph queries, table agreement; thorough tier adds an in-memory overlay-mutant sensitivity audit"}],
  "checks":[],
- "notes":"All checks are static: each run loads /repo's working tree, type-checks it, builds SSA and decides rule instances (obligations) of DESIGN.md section 4. Undecided obligations, unresolved anchors, load failures and instance counts below the recorded floors are reported as violations. /repo carries four 'fix:' commits (see known_findings.json).",
+ "notes":"All checks are static: each run loads /repo's working tree, type-checks it, builds SSA and decides rule instances (obligations) of DESIGN.md section 4. Undecided obligations, unresolved anchors, load failures and instance counts below the recorded floors are reported as violations. /repo carries five 'fix:' commits (see known_findings.json). Each check also evaluates the rule sets of the properties its statement rests on (dependency closure, DESIGN.md section 11.1).",
  "not_applicable":[]
 }
 for p in props:
